@@ -92,3 +92,30 @@ reg("C13",
     "non-trivial = an executed selection on a DAG that has debug nodes, or a placement the builder must refuse",
     "N<=3: components <=2; N=4: components <=1",
     "N<=4: components <=2")
+
+PROG_ASSUME = ["the reference interpreter of twzmc/ir.py (sequential evaluation with plain callables, `f(...) if flag else None`, nested DAG = plain call) is the meaning of 'the plain Python function'",
+               "function library is pure and tiny (k0, inc, add(x, y=10), pair, mkd, ident); values are small ints, tuples, dicts, bools, None"]
+reg("C01",
+    "EVERY describing function with <= 2 statements (and every 3-statement chain) over the statement alphabet {no-arg call, 1-arg call, 2-arg positional, keyword argument, node-function default, unpack_to=2, "
+    "indexed tuple / dict / nested index, binary operators var.var / var.const / const.var, unary minus, and_/or_/not_, reused functions, flagged call with constant / parameter / whole-result flag, nested DAG calls} "
+    "x argument slots over {parameters, a constant, projections of the two most recent variables} x return shapes {single, tuple, list, dict, with constants, an input returned directly, None, constant} "
+    "x DAG parameters {(x), (x, y=4)} x inputs x in {0, 3, -2}, y in {omitted, 7} x configurations {mc=1, mc=3, all sequential via config_from_dict, reversed priorities via config_from_yaml, ascending priorities via config_from_json, "
+    "resources rotated main/async-thread/thread per call site} x {DAG, AsyncDAG}; programs with <= 3 library calls additionally under EVERY completion order. Oracle: reference interpreter (value type-exact, same library calls with same arguments, "
+    "same exception class). non-trivial = distinct (set of statement kinds, return shape) combinations with >= 2 statements",
+    "2 statements: ops {+,<,==,&}, return shape and 2 of 6 configurations by rotation; 3-statement chains over (x) with op {+}, 1 configuration by rotation; ties<=1",
+    "2 statements: 8 operators x all 9 return shapes x 6 configurations x 2 flavours; 3-statement chains with nested DAGs and both parameter lists, 3 configurations (time-capped, simplest first)",
+    PROG_ASSUME)
+
+reg("C20",
+    "nesting structures: (A) one nested call: inner signatures {(a), (a, b=5), (a=1, b=5)} x EVERY call form (first argument a parameter / constant / result / indexed result; second omitted / explicit value equal to the default / different / parameter / result; "
+    "no argument at all) x inner return shapes {single, tuple with an input returned directly, list, dict, tuple with a constant, dict with a constant, an input only} x outer uses {returned, passed to a node, passed to another nested DAG, used as activation flag, operator, indexed, unpacked}; "
+    "(B) depth 2 and depth 3 nestings of the same; (C) the same inner DAG called twice in one outer DAG with the first result feeding the second call. x inputs {0, 3, -2} x {mc=1, mc=3} x {DAG, AsyncDAG}. "
+    "Oracle: reference interpreter (nested DAG = plain function call), same library calls with the same arguments. non-trivial = distinct (family, signature, return shape, use, call form)",
+    "all of A, B (every second call form), C", "all of A, B, C", PROG_ASSUME)
+
+reg("C10",
+    "flag forms {constants True/False/0/1/''/'a'/[]/[0]/None, DAG parameter, whole result, result[key], result[key][i], tuple element, unpacked element, comparison, and_, not_, result of a deactivated node} x "
+    "carriers {plain node, node with keyword argument, reused function, node with dependents two deep, flag chain, nested DAG returning a tuple (unpacked) / used whole / single value, nested DAG with an inner setup node, "
+    "nested DAG that already has a flagged node (must raise the documented RuntimeError), nested DAG two levels deep} x inputs making every form truthy and falsy x {mc=1, mc=3 with EVERY completion order} x {DAG, AsyncDAG}. "
+    "Oracle: reference interpreter `f(...) if flag else None` (nested DAG: no non-setup inner call, all outputs None), identical library calls. non-trivial = distinct (flag form, carrier) pairs",
+    "all forms x all carriers", "same (the space is small and fully enumerated in both tiers)", PROG_ASSUME)
